@@ -44,6 +44,14 @@ REG = {
         ],
         "trusted_base": ["std++ 1.8.0 gmap (axiom-free)", "modelled, not verified: net.Pipe delivery, math/big bit operations behind UserFlags.Set"],
     },
+    "C14": {
+        "assumptions": [
+            "a single Write call on the client connection is atomic with respect to other Write calls (TCP-like connection of the property's hook note; net.Pipe in the harness serialises Writes the same way); partial-write error paths are not modelled",
+            "which interleavings the Go scheduler produces is not modelled: the theorems quantify over all of them; the load run is a search, not the proof",
+            "'at most one reply per request' is a path-insensitive bound computed by the translator over every handler's AST (loops count as unbounded)",
+        ],
+        "trusted_base": ["translator: Gen/Handlers.v (registration table, per-handler reply bound)", "modelled, not verified: goroutine scheduling, kernel buffering, net.Conn.Write atomicity"],
+    },
     "C15": {
         "assumptions": [
             "logins are legal file names (non-empty, no '/', no NUL): the account file name is then an injective function of the login",
